@@ -295,6 +295,7 @@ func clipLog(l []string) []string {
 }
 
 func runC17(c *fw.Ctx) {
+	runSpxFamily(c, "C17")
 	thorough := c.Tier == "thorough"
 	var item int64
 	sampled := 0
